@@ -141,6 +141,9 @@ func materializeSkeletons(model map[string]interface{}) (string, error) {
 }
 
 func runNative(harness, modelPath string) string {
+	if strings.Contains(harness, ".G_") {
+		return corpusNative(harness, modelPath)
+	}
 	bin, errs := replayBinary()
 	if bin == "" {
 		return errs
@@ -231,6 +234,23 @@ func cmdReplay(prop, path string) int {
 	json.Unmarshal(b, &m)
 	var ok bool
 	var out string
+	if strings.HasPrefix(m.Harness, "corpus:") {
+		// re-run the tool built from the current tree on the corpus case and compile its output
+		w := getCorpus()
+		defer cleanupCorpus()
+		cs := strings.TrimPrefix(m.Harness, "corpus:")
+		if w.err != nil {
+			fmt.Println("CORPUS-ERROR:", w.err)
+			return 2
+		}
+		if why, bad := w.caseFail[cs]; bad {
+			fmt.Println(why)
+			fmt.Printf("VIOLATION property=%s replay=%s\n", prop, path)
+			return 1
+		}
+		fmt.Println("corpus case", cs, "generates and compiles on the current tree")
+		return 0
+	}
 	if spec := findSpec(m.Harness); spec != nil && spec.Replay == "e2e-cli" {
 		ok, out = e2eCLI(m.Inputs)
 	} else {
